@@ -36,6 +36,9 @@ class Finding:
         return (self.rule, self.file, self.scope, self.construct)
 
 
+MAIN_REPORTS: dict = {}
+
+
 @dataclass
 class Report:
     property_id: str
@@ -48,6 +51,9 @@ class Report:
     explanation: str = ""
     extra: dict = field(default_factory=dict)
     exhaustive: bool | None = None
+
+    def __post_init__(self):
+        MAIN_REPORTS.setdefault(self.property_id, self)  # the driver reports what was found even if a later clause breaks
 
     # -------------------------------------------------------------- record
     def ok(self, rule: str, where, what: str = ""):
